@@ -533,7 +533,9 @@ std::string f80_line(std::vector<std::string> const &t)
   fcppt::optional::object<long double> const r{fcppt::io::read<long double>(s, e)};
   fcppt::optional::object<long double> const r2{fcppt::io::read<long double>(s, e)};
   auto const opt = [](fcppt::optional::object<long double> const &o) { return o.has_value() ? f80_text(o.get_unsafe()) : std::string{"none"}; };
-  return "w=" + hex_of(w) + " r=" + opt(r) + " r2=" + opt(r2) + " ss=" + f80_text(fcppt::endianness::swap(fcppt::endianness::swap(v))) +
+  // swap itself is byte-order independent and belongs to the non-native case: it is only printed there
+  return "w=" + hex_of(w) + " r=" + opt(r) + " r2=" + opt(r2) +
+         (e == std::endian::native ? std::string{} : " ss=" + f80_text(fcppt::endianness::swap(fcppt::endianness::swap(v)))) +
          " cc=" + f80_text(fcppt::endianness::convert(fcppt::endianness::convert(v, e), e));
 }
 
